@@ -567,8 +567,9 @@ def operands_of(prog, op, argv):
 
 
 def run_job(args):
-    op, shape_idx, timeout_ms, want_surd = args
-    out = {"op": op, "shape": shape_idx, "goals": 0, "ok": 0, "fail": [], "inconclusive": [],
+    op, shape_idx, timeout_ms, want_surd = args[:4]
+    deadline = args[4] if len(args) > 4 else None
+    out = {"budget_soft": 0, "op": op, "shape": shape_idx, "goals": 0, "ok": 0, "fail": [], "inconclusive": [],
            "paths": 0, "instr": 0, "queries": 0, "solver_s": 0.0, "desc": "", "bound": 0,
            "validated": 0, "samples": []}
     with QV() as qv:
@@ -590,7 +591,10 @@ def run_job(args):
         soft = {"n": 0}
 
         def prove(name, goal, o):
-            if is_soft(op, opers, name):
+            over = deadline is not None and time.time() > deadline
+            if over:
+                out["budget_soft"] += 1
+            if over or is_soft(op, opers, name):
                 # attempted with a short time limit; `unknown` is recorded as undecided and is
                 # outside the claim (never counted as discharged); `sat` is still replayed
                 P.timeout_ms = 4000
@@ -736,6 +740,10 @@ def main():
     rep = Report(PROP)
     t = rep.tier
     timeout_ms = 120000 if t == "quick" else 300000
+    # thorough: after 40 minutes of wall time the remaining obligations are only attempted with
+    # the 4 s limit of the soft ones; what stays undecided is counted (undecided_after_budget) and
+    # is outside the claim of that run
+    deadline = None if t == "quick" else time.time() + 2400
     with QV() as qv:
         h, prog, fns = load(qv)
         ops = RAT_OPS_QUICK if t == "quick" else RAT_OPS_THOROUGH
@@ -756,7 +764,7 @@ def main():
                         continue
                     if t == "quick" and not quick_surd_shape(prog, op, s, ks):
                         continue
-                jobs.append((op, i, timeout_ms, False))
+                jobs.append((op, i, timeout_ms, False, deadline))
             rep.functions.append("%%num.%s (fn %d) + callees" % (op, fns[op].fid))
     import multiprocessing as mp
     with mp.Pool(min(16, max(1, len(jobs)))) as pool:
@@ -771,6 +779,7 @@ def main():
         rep.extra["vacuity_witnesses_sat"] = rep.extra.get("vacuity_witnesses_sat", 0) + r.get("witnesses", 0)
         rep.extra["bounded_paths"] = rep.extra.get("bounded_paths", 0) + r.get("bound", 0)
         rep.extra["undecided_soft_obligations"] = rep.extra.get("undecided_soft_obligations", 0) + r.get("undecided_soft", 0)
+        rep.extra["attempted_after_budget"] = rep.extra.get("attempted_after_budget", 0) + r.get("budget_soft", 0)
         rep.extra.setdefault("job_seconds", []).append([r["desc"], round(r["solver_s"], 1)])
         for s in r["samples"]:
             rep.sample(s)
